@@ -79,7 +79,7 @@ CLASSIFY = [
     ('no_events', r'requires an "events" line'),
     ('buffer_size', r'sets invalid buffer_size'),
     ('redirect_listener', r'sets redirect_stderr=true'),
-    ('result_handler', r'cannot be resolved within'),
+    ('result_handler', r'(cannot be resolved|is not callable) within \['),
     ('unknown_program', r'names unknown program or fcgi-program'),
     ('ambiguous_program', r'is ambiguous \(exists as program and fcgi-program\)'),
     ('socket_backlog', r'^Invalid socket_backlog value'),
@@ -94,7 +94,7 @@ CLASSIFY = [
     ('autorestart', r"^invalid 'autorestart' value"),
     ('signal', r'is not a valid signal (name|number)'),
     ('loglevel', r'^bad logging level name'),
-    ('env_syntax', r'^Unexpected end of key/value pairs'),
+    ('env_syntax', r"^Unexpected (end of|'.*' between) key/value pairs"),
     ('quote', r'^No closing quotation'),
     ('no_supervisord', r'^\.ini file does not include supervisord section'),
     ('dirpath', r'^The directory named as part of the path'),
